@@ -20,7 +20,7 @@ def gaps_arm(ctx):
     # 1. MC: as-built refines as-required (Slack 0), and as built (Slack 1) fails only by lost coverage
     def cfg(inv, slack, L, n):
         return 'SPECIFICATION Spec\nCONSTANTS L = %d\n MaxN = %d\n Slack = %d\nINVARIANT %s\nCHECK_DEADLOCK FALSE\n' % (L, n, slack, inv)
-    L, n = (8, 4) if thorough else (6, 3)
+    L, n = (6, 4) if thorough else (6, 3)      # TLC builds the input set eagerly: at most 10^6 elements (28^4 = 614 656)
     r = ctx.tlc('GapsMC', 'mc_req.cfg', cfg_text=cfg('Refines', 0, L, n), timeout=3000)
     ctx.tlc_expect_ok(r, 'Gaps Slack=0 refines requirement')
     r = ctx.tlc('GapsMC', 'mc_built.cfg', cfg_text=cfg('RefinesOrKnownHole', 1, L, n), timeout=3000)
